@@ -38,7 +38,12 @@ class Scanner:
         while self.pos < len(self.input):
             if self.state is not None:
                 try:
+                    progress_mark = (self.pos, len(self.tokens))
                     self.state(self)
+                    if progress_mark == (self.pos, len(self.tokens)):
+                        # a state that neither consumes input nor emits a token would be called forever
+                        self.next()
+                        raise ScannerException(f"Invalid Input {self.input[self.start:]}", self.get_position())
                 except ScannerException as e:
                     # consume the rest of the current line
                     self.accept_run("\n\0", negate=True)
